@@ -37,11 +37,6 @@ Progress ==
     LET r == LexTok(src, p) IN r.st # "FUEL" /\ (KindOf(r.st, r.buf) \notin {"EOF", "LEXERROR", "PANIC", "HANG"} => r.next > p)
 
 (* ---- spellings (checked as an assumption: a finite table)                 *)
-SpellingsOf(b, q) ==
-  {SpellHex(b, TRUE), SpellHex(b, FALSE)}
-    \cup (IF b \notin {q, BSL, 0} THEN {SpellRaw(b)} ELSE {})
-    \cup (IF EscapeLetter(b) # 0 THEN {<<BSL, EscapeLetter(b)>>} ELSE {})
-    \cup (IF EscapeOf(b) = b /\ b # 120 THEN {SpellBackslash(b)} ELSE {})    \* backslash before any other character
 SpellingsDenote ==
   \A b \in 1..127 : \A q \in {Q1, Q2} : \A sp \in SpellingsOf(b, q) :
     Denote(q, sp).ok /\ Denote(q, sp).s = <<b>>
